@@ -64,7 +64,7 @@ def check_stores(ctx):
                                     expected='_cmetric.jaccarddist(...) | out[...]', found=u(v), stmt=s)
         for c in calls_in(fi.node):
             f = m.resolve_call(fi, c) or u(c.func)
-            o = get_kw(c, 'out')
+            o = get_arg(c, 2, 'out') if f == f'{MET}.jaccarddist_array' else get_kw(c, 'out')
             uses_out = [a for a in list(c.args) + [k.value for k in c.keywords] if _root(a) in al] if not isinstance(c.func, ast.Attribute) or _root(c.func) not in al else [c.func]
             if not uses_out:
                 continue
@@ -236,7 +236,7 @@ def check_matrix(ctx):
     rep.add('B5', fi.site(q_loop), 'row index and query are bound by one enumerate over the queries', okq, expected=f'for i, query in enumerate({qp})', found=u(q_loop.iter), stmt='query enumerate')
     rep.require(okq, 'jaccarddist_matrix: query loop shape')
     i, qv = (u(e) for e in q_loop.target.elts)
-    o = get_kw(c, 'out')
+    o = get_arg(c, 2, 'out')
     rep.add('B5', fi.site(c), 'row i, columns of this chunk receive the distances of query i to the chunk', u(c.args[0]) == qv and u(o) == f'out[{i}, {sl}]', expected=f'jaccarddist_array({qv}, chunk, out=out[{i}, {sl}])', found=u(c), stmt='matrix cell block')
     chunk = c.args[1]
     d = reaching_def(fi.node, chunk.id, q_loop) if isinstance(chunk, ast.Name) else None
@@ -342,7 +342,7 @@ def check_pairwise(ctx):
     rep.add('B6', fi.site(c), 'row signature is signature i (directly or through the index selection)', both(row, f'{sp}[{i}]', f'{sp}[{ip}[{i}]]'), expected=f'{sp}[{i}] | {sp}[{ip}[{i}]]', found=u(row), stmt='row signature')
     rep.add('B6', fi.site(c), 'column signatures are selected by the same cols slice (directly or through the index selection)', both(col, f'{sp}[{cols}]', f'{sp}[{ip}[{cols}]]'), expected=f'{sp}[{cols}] | {sp}[{ip}[{cols}]]',
             found=u(col), stmt='column signatures')
-    o = get_kw(c, 'out')
+    o = get_arg(c, 2, 'out')
     ov = locs.get(u(o))
     okr = isinstance(ov, ast.IfExp) and u(ov.test) == 'flat' and u(ov.orelse) == f'out[{i}, {cols}]' and isinstance(ov.body, ast.Subscript) and isinstance(ov.body.slice, ast.Slice)
     nxt = None
